@@ -4,7 +4,10 @@ loses responses: a request marked `dup` reaches the server twice and the client 
 retry_transient_errors does after a dropped connection).
 
 A case: {'kind': 'client', 'subs': [{'groups': n, 'jobs': [[group_index|None, [names of parent jobs]], ...], 'bunch': max_bunch_size|None}, ...],
-         'dup': [0/1, ...]}      (dup is consumed cyclically, one entry per request)
+         'dup': [0/1, ...], 'ambig': [0/1, ...]}
+(dup is consumed cyclically, one entry per request; ambig likewise, one entry per delivery of a create / create-fast / updates/create /
+update-fast / commit request: k >= 1 = the k-th COMMIT of that delivery is AMBIGUOUS — applied by the server, reported to the service as
+error 2013 — so that gear.database.transaction re-runs the transaction body)
 
 Checked after every submit() (all on the server tables, names are carried in a 'name' attribute):
   one batch; one update per submission with the declared sizes, committed; update job / group ranges contiguous, disjoint, in order;
@@ -56,9 +59,13 @@ class Failure(Exception):
 
 
 class LossySession:
-    def __init__(self, app, fe, userdata, dup: List[int], tags: List[str]):
+    AMBIGUOUS_AT = ('create', 'create-fast', 'updates-create', 'update-fast', 'commit')
+
+    def __init__(self, app, fe, userdata, dup: List[int], tags: List[str], ambig: Optional[List[int]] = None):
         self.app, self.fe, self.userdata = app, fe, userdata
         self.dup = dup or [0]
+        self.ambig = ambig or [0]
+        self.n_ambig = 0
         self.n = 0
         self.tags = tags
         self.lock = asyncio.Lock()      # one request at a time (whole transactions, as everywhere in E1)
@@ -83,11 +90,36 @@ class LossySession:
         raise AssertionError(f'no route for {method} {path}')
 
     async def _deliver(self, method, path, body):
-        handler, match_info, _ = self._route(method, path)
+        handler, match_info, name = self._route(method, path)
         req = _Req(self.app, match_info, body)
         req['batch_telemetry'] = {}
         async with self.lock:
-            return await _innermost(handler)(req, self.userdata)
+            pool = self.app['db'].pool
+            if name in self.AMBIGUOUS_AT:
+                flag = self.ambig[self.n_ambig % len(self.ambig)]
+                self.n_ambig += 1
+                if flag:
+                    # AMBIGUOUS COMMIT at the first COMMIT of this request: the server applies it, the service sees 2013 (lost connection);
+                    # gear.database.transaction re-runs the transaction body
+                    import pymysql
+                    from ..minisql import fakepool
+                    fired = []
+
+                    seen = [0]
+
+                    def hook(i, sql):
+                        if sql == 'COMMIT':
+                            seen[0] += 1
+                        if sql == 'COMMIT' and not fired and seen[0] == flag:     # the flag-th COMMIT the request issues
+                            fired.append(i)
+                            self.tags.append('ambiguous-commit:' + name)
+                            return fakepool.commit_applied(pymysql.err.OperationalError(2013, 'Lost connection to MySQL server during query'))
+                        return None
+                    pool.faults = hook
+            try:
+                return await _innermost(handler)(req, self.userdata)
+            finally:
+                pool.faults = None
 
     async def _send(self, method, url, body):
         path = url[len('http://batch'):]
@@ -128,7 +160,8 @@ class LossySession:
 def _check_server(db, bid, expected, where) -> Optional[Tuple[str, str]]:
     batches = list(db.tables['batches'])
     if len(batches) != 1:
-        return ('second-batch-created', f'{where}: {len(batches)} batches exist')
+        return ('second-batch-created', f'{where}: {len(batches)} batches exist for one (user, token): '
+                                        f'{[(x["id"], x["user"], x["token"]) for x in batches]}')
     ups = sorted((u for u in db.tables['batch_updates'] if u['batch_id'] == bid), key=lambda u: u['update_id'])
     if [(u['n_jobs'], u['n_job_groups']) for u in ups] != expected:
         return ('updates-differ-from-submissions', f'{where}: updates on the server {[(u["update_id"], u["n_jobs"], u["n_job_groups"]) for u in ups]}, '
@@ -194,7 +227,7 @@ async def _run(repo, case, tags: List[str]) -> Optional[Tuple[str, str]]:
     try:
         from batch.front_end import front_end as fe
         from hailtop.batch_client.aioclient import BatchClient
-        session = LossySession(app, fe, batchapp.USERDATA, list(case.get('dup') or [0]), tags)
+        session = LossySession(app, fe, batchapp.USERDATA, list(case.get('dup') or [0]), tags, list(case.get('ambig') or [0]))
         client = BatchClient(batchapp.BILLING_PROJECT, 'http://batch', session, {})
         b = client.create_batch(attributes={'name': 'verif'}, token='batch-token-1')
         cj: Dict[str, Any] = {}
@@ -230,7 +263,15 @@ async def _run(repo, case, tags: List[str]) -> Optional[Tuple[str, str]]:
             try:
                 await b.submit(**kw2)
             except Exception as e:    # noqa: BLE001
-                return session.failure or ('submit-failed', f'submit #{si + 1} raised {type(e).__name__}: {str(e)[:200]}')
+                if session.failure:
+                    return session.failure
+                if getattr(e, 'reason', None) == 'job group specs were not submitted in order' and any(t.startswith('ambiguous-commit') for t in tags):
+                    # the unchanged repository: _create_job_groups is not idempotent, so when ITS transaction commits ambiguously the retry of
+                    # the transaction body inside the service answers 400 although the groups were created.  Nothing is duplicated (the
+                    # property's subject); the submission is abandoned here and not judged further.  Same oddity as the replayed group bunch.
+                    tags.append('ambiguous-commit-of-job-groups-transaction-answered-400')
+                    return None
+                return ('submit-failed', f'submit #{si + 1} raised {type(e).__name__}: {str(getattr(e, "reason", e))[:200]}')
             if session.failure:
                 return session.failure
             where = f'after submit #{si + 1}'
@@ -250,7 +291,8 @@ def run_client_case(repo, case) -> Tuple[Optional[Tuple[str, str]], List[str]]:
     tags: List[str] = []
     prev = logging.root.manager.disable
     logging.disable(logging.CRITICAL)
-    loop = asyncio.new_event_loop()
+    from .. import aloop
+    loop = aloop.VLoop()          # virtual clock: the back-off sleeps of retry_transient_mysql_errors cost no wall time
     try:
         f = loop.run_until_complete(_run(repo, case, tags))
     finally:
@@ -281,4 +323,10 @@ def gen_client_case(rng: random.Random) -> Dict[str, Any]:
         subs.append({'groups': groups, 'jobs': jobs, 'bunch': rng.choice([None, None, 1, 2, 3])})
     mode = rng.random()
     dup = [1] if mode < 0.4 else [rng.randint(0, 1) for _ in range(rng.randint(2, 7))]
-    return {'kind': 'client', 'subs': subs, 'dup': dup, 'ops': []}
+    c = {'kind': 'client', 'subs': subs, 'dup': dup, 'ops': []}
+    if rng.random() < 0.5:
+        # some transactions commit ambiguously (commit applied, connection error reported)
+        c['ambig'] = [rng.choice([1, 2, 3])] if rng.random() < 0.3 else [rng.choice([0, 0, 1, 2, 3]) for _ in range(rng.randint(2, 6))]
+        if rng.random() < 0.5:
+            c['dup'] = [0]          # ... also without any re-delivery: the retry inside the service is enough
+    return c
